@@ -67,16 +67,16 @@ theorem encode_eq_spec (R : Registry) (S : List Def) (hc : Covers R S) (v : Val)
 
 /-- **Bytes built from the schema decode to the corresponding value**: for a well-typed value, the
 schema-defined bytes — followed by anything — are decoded, by constructor id, to the value. -/
-theorem decode_spec_bytes (R : Registry) (S : List Def) (gz : Bytes → Option Bytes) (hR : WFR R) (hc : Covers R S)
+theorem decode_spec_bytes (R : Registry) (S : List Def) (gz : Bytes → Option Bytes) (dp : Nat) (hR : WFR R) (hc : Covers R S)
     (v : Val) (bs rest : Bytes) (fuel : Nat)
     (hwt : WT R (.iface "tl.Object") v) (hp : Plain R S v) (henc : marshal R v = .ok bs) (hf : need v ≤ fuel) :
     specVal S v = .ok bs ∧
-    ∃ v', decRegistered R gz fuel (bs ++ rest) [] = .ok (v', rest, []) ∧ erase v' = erase v := by
+    ∃ v', decRegistered R gz dp fuel (bs ++ rest) [] = .ok (v', rest, []) ∧ erase v' = erase v := by
   refine ⟨spec_val R S hc v bs hp henc, ?_⟩
-  obtain ⟨v', hdec, her⟩ := rt_val R gz hR v (.iface "tl.Object") bs rest [] (fuel + 1) hwt henc (by omega)
+  obtain ⟨v', hdec, her⟩ := rt_val R gz dp hR v (.iface "tl.Object") bs rest [] (fuel + 1) hwt henc (by omega)
   refine ⟨v', ?_, her⟩
   simp only [decVal] at hdec
-  cases hreg : decRegistered R gz fuel (bs ++ rest) [] with
+  cases hreg : decRegistered R gz dp fuel (bs ++ rest) [] with
   | err e => simp [hreg] at hdec
   | panic s => simp [hreg] at hdec
   | ok p =>
